@@ -8,6 +8,7 @@ import (
 	"time"
 
 	"go.etcd.io/raft/v3/quorum"
+	"go.etcd.io/raft/v3/tracker"
 
 	"verif/model"
 )
@@ -115,6 +116,48 @@ func cmdQuorum(args []string) int {
 			}
 		}
 	}
+	// The same arithmetic where raft applies it to a live configuration:
+	// ProgressTracker.Committed / TallyVotes / QuorumActive / IsSingleton. A
+	// learner with a huge Match, a yes vote and RecentActive is added and must
+	// never count.
+	trackerEvals := 0
+	checkTracker := func(c0, c1 []uint64, acked map[uint64]uint64, votes map[uint64]bool) {
+		trackerEvals++
+		t := tracker.MakeProgressTracker(4, 0)
+		t.Voters[0] = toMajority(c0)
+		if len(c1) > 0 {
+			t.Voters[1] = toMajority(c1)
+		}
+		for _, id := range append(append([]uint64{}, c0...), c1...) {
+			if t.Progress[id] == nil {
+				v, voted := votes[id]
+				t.Progress[id] = &tracker.Progress{Match: acked[id], Next: acked[id] + 1, RecentActive: voted && v}
+			}
+		}
+		const learner = 999983
+		t.Learners = map[uint64]struct{}{learner: {}}
+		t.Progress[learner] = &tracker.Progress{Match: 1 << 40, Next: 1<<40 + 1, IsLearner: true, RecentActive: true}
+		for id, v := range votes {
+			t.RecordVote(id, v)
+		}
+		t.RecordVote(learner, true)
+		if len(c0) > 0 || len(c1) > 0 {
+			if got, want := t.Committed(), model.JointCommitted(c0, c1, acked); got != want {
+				report("ProgressTracker.Committed: incoming=%v outgoing=%v match=%v: got %d, definition gives %d", c0, c1, acked, got, want)
+			}
+		}
+		_, _, res := t.TallyVotes()
+		if got, want := voteRes(res), model.JointVote(c0, c1, votes); got != want {
+			report("ProgressTracker.TallyVotes: incoming=%v outgoing=%v votes=%v: got %d, definition gives %d (1=pending 2=lost 3=won)", c0, c1, votes, got, want)
+		}
+		active := func(id uint64) bool { return votes[id] }
+		if got, want := t.QuorumActive(), model.HasQuorum(active, c0, c1); got != want {
+			report("ProgressTracker.QuorumActive: incoming=%v outgoing=%v active=%v: got %v, definition gives %v", c0, c1, votes, got, want)
+		}
+		if got, want := t.IsSingleton(), len(c0) == 1 && len(c1) == 0; got != want {
+			report("ProgressTracker.IsSingleton: incoming=%v outgoing=%v: got %v, want %v", c0, c1, got, want)
+		}
+	}
 	// ---- exhaustive part: ids {1..5}
 	uni := []uint64{1, 2, 3, 4, 5}
 	ackVals := []int64{-1, 0, 1, 2, 3} // -1 = missing
@@ -164,6 +207,13 @@ func cmdQuorum(args []string) int {
 					checkVote(c0, nil, votes, false)
 				}
 				checkVote(c0, c1, votes, true)
+				if m0 != 0 {
+					acked := map[uint64]uint64{}
+					for i, id := range union {
+						acked[id] = uint64((a/(i+1) + int(id)) % 4)
+					}
+					checkTracker(c0, c1, acked, votes)
+				}
 			}
 		}
 	}
@@ -221,6 +271,13 @@ func cmdQuorum(args []string) int {
 		checkIdx(c0, nil, acked, false)
 		checkVote(c0, c1, votes, true)
 		checkVote(c0, nil, votes, false)
+		if len(c0) > 0 {
+			a2 := map[uint64]uint64{}
+			for _, id := range append(append([]uint64{}, c0...), c1...) {
+				a2[id] = acked[id]
+			}
+			checkTracker(c0, c1, a2, votes)
+		}
 	}
 	wall := time.Since(t0).Seconds()
 	ev := &evidence{PropertyID: "C12", Tier: *tier, Seed: *seed, Level: "exploration", WallS: wall, Violations: viol,
@@ -230,7 +287,8 @@ func cmdQuorum(args []string) int {
 			"exhaustive":          true,
 			"exhaustive_evaluations": exhaustiveEvals,
 			"sampled_evaluations": evals - exhaustiveEvals,
-			"rule": "exhaustive: every pair (incoming, outgoing) of subsets of ids {1..5} (1024 pairs, including empty sets), every assignment of acknowledged index in {missing,0,1,2,3} and of vote in {yes,no,missing} to the ids of the union, for MajorityConfig (outgoing empty) and JointConfig; sampled (PRNG from VERIF_SEED): voter sets of 0..12 ids incl. ids and indexes up to 2^64-1. Every input is distinct by construction; non-trivial = the definition-level result is a real index (not 0, not 'no constraint') or a decided vote (won/lost). 'exhaustive' refers to the bounded part only.",
+			"tracker_level_evaluations": trackerEvals,
+			"rule": "(each input is also applied through tracker.ProgressTracker.Committed/TallyVotes/QuorumActive/IsSingleton with a learner that must not count) exhaustive: every pair (incoming, outgoing) of subsets of ids {1..5} (1024 pairs, including empty sets), every assignment of acknowledged index in {missing,0,1,2,3} and of vote in {yes,no,missing} to the ids of the union, for MajorityConfig (outgoing empty) and JointConfig; sampled (PRNG from VERIF_SEED): voter sets of 0..12 ids incl. ids and indexes up to 2^64-1. Every input is distinct by construction; non-trivial = the definition-level result is a real index (not 0, not 'no constraint') or a decided vote (won/lost). 'exhaustive' refers to the bounded part only.",
 			"samples": samples,
 		},
 		Assumptions: []string{"harness/model/quorum.go states the definition of majority/joint commit index and vote result correctly"}}
